@@ -15,6 +15,18 @@ CHECKS = {
         note="Bounded: N<=3 points, <=5 calls; point identity via f=10^id, Z=z(1-0.5j); TLC 1.8, the TLA+ value reader and the replay driver are trusted.",
         technique="TLA+ spec (DataSet.tla) + TLC exhaustive BFS; spec->code replay of every TLC-generated history with per-step state comparison",
     ),
+    "C06": dict(
+        text="specs/Table.tla transcribes column detection (alias table and key order of _detect_columns, sign markers), the choice of the "
+             "real/imaginary vs modulus/phase pair and sweep splitting, and spans the documented conventions: every alias x sign marker x "
+             "unit suffix in every column order (f/re/im, f/mod/phase, all five), x separator, decimal mark, row order, 1..3 sweeps, "
+             "letter case, 1..4 points, plus the instrument text layouts. TLC checks that every header row is detected as intended and "
+             "that sweep splitting partitions every frequency sequence (or refuses it). Each configuration (a stated fraction, chosen "
+             "with the seed) is written as a real file and parsed with parse_data: number of data sets, frequencies, impedances and the "
+             "sign of Im must match; the table printed by the CLI 'parse' command is re-parsed.",
+        design_ref="§4 C06",
+        note="One family of spectra; pandas' tokenising is exercised but not modelled; instrument files are written from the structure of tests/data.*; header text is space-free for space/semicolon separated files (documented contract).",
+        technique="TLA+ spec (Table.tla) + TLC enumeration of header rows and file options; spec->code replay by writing every configuration to a real file and parsing it",
+    ),
     "C14": dict(
         text="The parameter store of Element (specs/ElementParams.tla: set_values/set_lower_limits/set_upper_limits/set_fixed in "
              "keyword, positional and malformed forms, set_label, reset_parameter(s), copy/deepcopy, to_string->parse_cdc, two live "
